@@ -729,8 +729,14 @@ impl<'a> Parser<'a> {
             let op = self.current().clone();
             self.next()?;
 
-            let mut rhs = self.parse_unary_operator()?;
-            if token_precedence < self.get_token_precedence()? {
+            let mut rhs = if op == Token::LeftSquareParentheses {
+                // The subscript is a complete expression, delimited by the closing bracket
+                self.parse_expression_internal()?
+            } else {
+                self.parse_unary_operator()?
+            };
+
+            if op != Token::LeftSquareParentheses && token_precedence < self.get_token_precedence()? {
                 rhs = self.parse_binary_operator_rhs(token_precedence + 1, rhs)?;
             }
 
@@ -773,7 +779,8 @@ impl<'a> Parser<'a> {
                         ParserExpressionTreeData::Tuple { values } => {
                             values
                         }
-                        _ => { return Err(ParserError::new(op_location, ParserErrorType::ExpectedTuple)); }
+                        // A list of one element is just a parenthesised expression
+                        tree => vec![ParserExpressionTree::new(rhs.location, tree)]
                     };
 
                     lhs = ParserExpressionTree::new(
@@ -786,7 +793,8 @@ impl<'a> Parser<'a> {
                         ParserExpressionTreeData::Tuple { values } => {
                             values
                         }
-                        _ => { return Err(ParserError::new(op_location, ParserErrorType::ExpectedTuple)); }
+                        // A list of one element is just a parenthesised expression
+                        tree => vec![ParserExpressionTree::new(rhs.location, tree)]
                     };
 
                     lhs = ParserExpressionTree::new(
@@ -824,13 +832,13 @@ impl<'a> Parser<'a> {
                 }
             }
             Token::DoubleColon => Ok(7),
-            Token::Keyword(Keyword::Is) => Ok(2),
-            Token::Keyword(Keyword::IsNot) => Ok(2),
-            Token::Keyword(Keyword::In) => Ok(2),
-            Token::Keyword(Keyword::NotIn) => Ok(2),
-            Token::Keyword(Keyword::And) => Ok(1),
+            Token::LeftSquareParentheses => Ok(7),
+            Token::Keyword(Keyword::Is) => Ok(3),
+            Token::Keyword(Keyword::IsNot) => Ok(3),
+            Token::Keyword(Keyword::In) => Ok(3),
+            Token::Keyword(Keyword::NotIn) => Ok(3),
+            Token::Keyword(Keyword::And) => Ok(2),
             Token::Keyword(Keyword::Or) => Ok(1),
-            Token::LeftSquareParentheses => Ok(1),
             _ => Ok(-1)
         }
     }
@@ -948,6 +956,12 @@ impl<'a> Parser<'a> {
         };
 
         let operand = self.parse_unary_operator()?;
+        // Unary minus binds looser than cast, subscript and qualified names; NOT looser than comparisons
+        let operand = match op_token {
+            Token::Keyword(Keyword::Not) => self.parse_binary_operator_rhs(3, operand)?,
+            _ => self.parse_binary_operator_rhs(6, operand)?
+        };
+
         match op_token {
             Token::Operator(op) => {
                 if !self.unary_operators.exists(&op) {
